@@ -312,7 +312,7 @@ func leastWith(lo, hi int64, pred func(int64) bool) (int64, bool) {
 		return 0, false
 	}
 	for lo < hi {
-		mid := lo + (hi-lo)/2
+		mid := lo + int64((uint64(hi)-uint64(lo))/2)
 		if pred(mid) {
 			hi = mid
 		} else {
